@@ -85,7 +85,51 @@ def score(seed):
     return 0
 
 
+def _score_in_worktree(seed):
+    """Like score(), but in a scratch worktree (so that several seeds can be scored at once); removed afterwards."""
+    seed = os.path.abspath(seed)
+    wt = tempfile.mkdtemp(prefix="seedscore_", dir="/tmp")
+    os.rmdir(wt)
+    fired = {}
+    try:
+        rc, out = sh(f"git -C /repo worktree add -q --detach {wt} HEAD")
+        if rc:
+            return seed, {"error": out}
+        rc, out = sh(f"git apply {seed}/patch.diff", cwd=wt)
+        if rc:
+            return seed, {"error": "patch does not apply: " + out}
+        for p in PROPS:
+            ev = f"{wt}.ev_{p}.json"
+            rc, out = sh(f"./check {p} --root {wt} --evidence {ev}", cwd=VERIF, timeout=600)
+            keys = []
+            vf = ev + ".viol.json"
+            if rc == 1 and os.path.exists(vf):
+                keys = [v["key"] for v in json.load(open(vf))["violations"]]
+            if rc != 0:
+                fired[p] = {"rc": rc, "keys": keys, "tail": "" if keys else out[-300:]}
+            for f in (ev, vf):
+                if os.path.exists(f):
+                    os.remove(f)
+    finally:
+        sh(f"git -C /repo worktree remove --force {wt}")
+    return seed, fired
+
+
+def matrix(root):
+    from concurrent.futures import ThreadPoolExecutor
+    seeds = sorted(os.path.join(root, d) for d in os.listdir(root) if os.path.exists(os.path.join(root, d, "patch.diff")))
+    res = {}
+    with ThreadPoolExecutor(max_workers=8) as ex:
+        for seed, fired in ex.map(_score_in_worktree, seeds):
+            res[os.path.basename(seed)] = fired
+    sh("git -C /repo worktree prune")
+    print(json.dumps(res, indent=1))
+    return 0
+
+
 if __name__ == "__main__":
+    if len(sys.argv) == 3 and sys.argv[1] == "matrix":
+        sys.exit(matrix(sys.argv[2]))
     if len(sys.argv) != 3 or sys.argv[1] not in ("confirm", "score"):
         raise SystemExit(__doc__)
     sys.exit(confirm(sys.argv[2]) if sys.argv[1] == "confirm" else score(sys.argv[2]))
